@@ -14,13 +14,13 @@ import (
 func init() {
 	eng.Register(&eng.Check{
 		ID:          "C08",
-		Rule:        "E1 two-run non-interference: a struct with a renamed field (bexpr:\"v\" json:\"jv\"), fields hidden under each tag name (bexpr:\"-\", json:\"-\", pointer:\"-\"), an unexported field and a rename-colliding field (tag = Go name of a hidden field), placed at top level / behind a pointer / as map value / slice element / nested struct field / []*S element; EVERY assignment of a 3-value hidden-content alphabet (the literal used by the expressions, the zero value nil, a list) to the 4 hideable fields (81 data per nesting), in two variants (visible fields non-zero / all visible fields zero); data are grouped by their projection on the fields visible under the configuration (tag name in {bexpr, json, \"\"} x unknown value {none, \"secret\"}); oracle: (a) every expression (hidden field by Go name, tag name, JSON pointer, through quantifiers, in / is empty / matches / == on the field and on the enclosing struct) has ONE outcome per group; (b) agreement with the reference (a hidden field never resolves to its content; renamed field only under its tag name); (c) Filter.Execute over the members of one group keeps all or none. Distinct by construction; non-trivial = group with >=2 members differing in hidden contents.",
+		Rule:        "E1 two-run non-interference: a struct with a renamed field (bexpr:\"v\" json:\"jv\"), fields hidden under each tag name (bexpr:\"-\", json:\"-\", pointer:\"-\"), an unexported field and a rename-colliding field (tag = Go name of a hidden field), placed at top level / behind a pointer / as map value / slice element / nested struct field / []*S element; EVERY assignment of a 3-value hidden-content alphabet (the literal used by the expressions, the zero value nil, a map holding it) to the 4 hideable fields (81 data per nesting), in two variants (visible fields non-zero / all visible fields zero); data are grouped by their projection on the fields visible under the configuration (tag name in {bexpr, json, \"\"} x unknown value {none, \"secret\"}); oracle: (a) every expression (hidden field by Go name, tag name, JSON pointer, through quantifiers, in / is empty / matches / == on the field and on the enclosing struct) has ONE outcome per group; (b) agreement with the reference (a hidden field never resolves to its content; renamed field only under its tag name); (c) Filter.Execute over the members of one group keeps all or none. Distinct by construction; non-trivial = group with >=2 members differing in hidden contents.",
 		Assumptions: []string{"reference interpreter as C01", "hidden-content alphabet of 3 values"},
 		Run:         runC08,
 	})
 }
 
-var c08Hidden = []*Node{str("secret"), NNilAny(), NSlice(TAny, str("secret"))}
+var c08Hidden = []*Node{str("secret"), NNilAny(), NMap(TStr, TAny, str("token"), str("secret"))}
 
 // c08ZeroVisible selects the variant whose visible fields hold zero values (so that the whole struct value is
 // zero exactly when its hidden fields are)
@@ -87,6 +87,8 @@ func c08Exprs(prefix []string) []any {
 			out = append(out, &Match{Sel: sel(n), Op: OpEq, Lit: lit}, &Match{Sel: sel(n), Op: OpIn, Lit: lit}, &Match{Sel: sel(n), Op: OpMatches, Lit: lit})
 		}
 		out = append(out, &Match{Sel: sel(n), Op: OpEmpty}, &Match{Sel: sel(n), Op: OpNe, Lit: "secret"}, &Match{Sel: sel(n, "0"), Op: OpEq, Lit: "secret"},
+			&Match{Sel: sel(n, "token"), Op: OpEq, Lit: "secret"}, &Match{Sel: sel(n, "zz"), Op: OpNe, Lit: "x"}, &Match{Sel: sel(n, "zz"), Op: OpEmpty},
+			&Quant{All: true, Sel: sel(n, "zz"), Mode: BindDefault, Val: "x", Body: &Match{Sel: []string{"x"}, Op: OpEq, Lit: "1"}},
 			&Match{Sel: sel(n), Op: OpEq, Lit: "secret", JP: true},
 			&Quant{All: false, Sel: sel(n), Mode: BindDefault, Val: "x", Body: &Match{Sel: []string{"x"}, Op: OpEq, Lit: "secret"}})
 	}
